@@ -222,6 +222,15 @@ def run(ctx):
                     continue
                 per[c] = per.get(c, 0) + 1
                 ctx.violation(c, {"gc": gc, "u": np.asarray(Uf, dtype=float).astype(form).astype(float)[:, i].tolist(), "s": sv, "alt": gc["alt"], "form": form}, e, o)
+    # batch sizes 1..9 from a pool of fixed, all-distinct points (an event's result does not depend on how many events
+    # are thrown with it; a 4 x 4 array is a batch of four events like any other)
+    pool = np.array([[(i * p % 97 + 0.5) / 97.0 for i in range(1, 10)] for p in (37, 53, 11, 71)])
+    for gc in (geom_cfg(525.0, 0.2, 0.3), geom_cfg(33.0, -math.pi / 4, math.pi)):
+        for n in range(1, 10):
+            v, info = judge(gc, pool[:, :n], [0.0, 10.0])
+            ctx.tick(3 * n, ("batch_size", n, gc["alt"]))
+            for c, i, e, o, sv in v[:3]:
+                ctx.violation(c, {"kind": "batch", "gc": gc, "n": n, "alt": gc["alt"]}, e, o)
     for ci, gc in enumerate(cfgs):
         v, info = judge(gc, U, s_list)
         ctx.tick(U.shape[1] * (1 + len(s_list)))
@@ -301,6 +310,10 @@ def replay(case):
         return pipeline.replay(case)
     if case.get("kind") == "history_full":
         return _history_replay(case)
+    if case.get("kind") == "batch":
+        pool = np.array([[(i * p % 97 + 0.5) / 97.0 for i in range(1, 10)] for p in (37, 53, 11, 71)])
+        v, _ = judge(case["gc"], pool[:, : case["n"]], [0.0, 10.0])
+        return [(c, e, o) for c, i, e, o, s2 in v]
     u = np.array(case["u"], dtype=np.float64).reshape(4, 1)
     s = case.get("s")
     v, _ = judge(case["gc"], u, [s] if s is not None else [0.0], form=case.get("form"))
